@@ -43,3 +43,6 @@ SolverOracle.vos SolverOracle.vok SolverOracle.required_vos: SolverOracle.v NumS
 DAK_spec.vo DAK_spec.glob DAK_spec.v.beautified DAK_spec.required_vo: DAK_spec.v 
 DAK_spec.vio: DAK_spec.v 
 DAK_spec.vos DAK_spec.vok DAK_spec.required_vos: DAK_spec.v 
+Trapz.vo Trapz.glob Trapz.v.beautified Trapz.required_vo: Trapz.v PyPrelude.vo
+Trapz.vio: Trapz.v PyPrelude.vio
+Trapz.vos Trapz.vok Trapz.required_vos: Trapz.v PyPrelude.vos
